@@ -743,6 +743,15 @@ def judge_compile(ctx, cfg, opt, model, obs, user, out, after, here):
     """the property's statements about a compilation, on the real objects"""
     from taurex.core.priors import PriorMode, Uniform, LogUniform
     # (1) history freedom: same as a fresh optimizer put into the current settings
+    # the tables of parameters are fixed by the objects: no settings operation adds, drops or moves an entry between the
+    # model's and the observation's table
+    for what, tab, ref in (('model', model.fittingParameters, cfg.get('model')), ('observation', obs.fittingParameters,
+                                                                              cfg.get('obs'))):
+        if ref and sorted(p[0] for p in ref) != sorted(tab):
+            ctx.violation('parameter-table-changed:' + what,
+                          'the history of settings operations changed WHICH parameters the %s owns (its table now has %r, the '
+                          'object declares %r)' % (what, sorted(tab), sorted(p[0] for p in ref)), here)
+            return
     fout, fresh = fresh_view(cfg, model, obs, user)
     keys = ('names', 'values', 'bounds', 'priors', 'derived')
     same = fout == out and all(
